@@ -91,12 +91,19 @@ theorem test_line_event (s : PState) (line : List Char) (ok : Bool) (num : Optio
       split <;> simp [isTestEvent]
     have h3 : (if exceedsPlan (enter s) (testNumber s num) = true then [Event.error Err.exceedsPlan] else []).filter
         isTestEvent = [] := by split <;> simp [isTestEvent]
-    simp [h1, h2, h3]
+    have h4 : (if numTooLong num = true then [Event.error Err.testNumberTooLarge] else []).filter isTestEvent = [] := by
+      split <;> simp [isTestEvent]
+    simp [h1, h2, h3, h4]
   · simp [onTest, ht]
   · simp [onTest]
 
+/-- the number is the previous one plus one when none is written (or when the written one is longer than
+`int()` accepts), else the written number -/
 theorem test_number_rule (s : PState) (d : List Char) :
-    testNumber s none = s.lastTest + 1 ∧ testNumber s (some d) = natOfDigits d := ⟨rfl, rfl⟩
+    testNumber s none = s.lastTest + 1 ∧
+    (tooLong d = false → testNumber s (some d) = natOfDigits d) ∧
+    (tooLong d = true → testNumber s (some d) = s.lastTest + 1) := by
+  refine ⟨rfl, ?_, ?_⟩ <;> intro h <;> simp [testNumber, h]
 
 /-- **one subtest per test line**, per line … -/
 theorem one_test_per_line (s : PState) (line : List Char) :
@@ -401,12 +408,13 @@ theorem second_plan (s : PState) (line ds : List Char) (dir expl : Option (List 
 /-- the first plan line yields the plan event: count, `late` iff subtests came first, `skipped` iff the count
 is 0 or the directive is SKIP -/
 theorem first_plan (s : PState) (line ds : List Char) (dir expl : Option (List Char))
-    (hv : swallowed s line = false) (hc : classify (rstrip line) = .plan ds dir expl) (hp : s.plan = none) :
+    (hv : swallowed s line = false) (hc : classify (rstrip line) = .plan ds dir expl) (hp : s.plan = none)
+    (hz : tooLong ds = false) :
     let p : Plan := { numTests := natOfDigits ds, late := decide (s.numTests > 0),
                       skipped := (natOfDigits ds == 0) || planIsSkip dir, explanation := expl }
     .plan p ∈ (step s line).2 ∧ (step s line).1.plan = some p := by
   rw [step_visible hv]
-  simp [mainLine, hc, onPlan, enter, hp]
+  simp [mainLine, hc, onPlan, enter, hp, hz]
 
 /-- … hence at most one plan event in any stream -/
 theorem at_most_one_plan (lines : List (List Char)) : countPlans (parse lines) ≤ 1 := by
@@ -463,6 +471,109 @@ theorem version_only_first_line (l : List Char) (ls : List (List Char)) (v : Nat
       simp [isVersionEvent] at this
   · have := finish_errors _ _ h
     simp [isErrorEvent] at this
+
+/-! ### Numbers longer than `int()` accepts, and "no input makes the parser raise" -/
+
+/-- a test line whose number has more than 4300 digits reports the error (and only such a line does); by
+`test_line_event` / `test_number_rule` it still yields exactly one subtest, numbered previous + 1 -/
+theorem overlong_test_number (s : PState) (line : List Char) (ok : Bool) (num : Option (List Char))
+    (name : List Char) (dir expl : Option (List Char))
+    (hv : swallowed s line = false) (hc : classify (rstrip line) = .test ok num name dir expl) :
+    .error .testNumberTooLarge ∈ (step s line).2 ↔ numTooLong num = true := by
+  rw [step_visible hv]
+  have hm : mainLine (enter s) line = onTest (enter s) ok num name dir expl := by simp [mainLine, hc]
+  have hnp : .error .testNumberTooLarge ∉ parseTest ok (testNumber (enter s) num) name dir expl := by
+    intro hmem
+    rcases (parse_test_event ok _ name dir expl).2 _ hmem with h | ⟨d, h⟩
+    · simp [isTestEvent] at h
+    · simp at h
+  rw [hm]
+  simp only [onTest, List.mem_append]
+  constructor
+  · rintro (h | ((h | h) | h) | h)
+    · split at h <;> simp at h
+    · split at h <;> simp at h
+    · split at h
+      · assumption
+      · simp at h
+    · split at h <;> simp at h
+    · exact absurd h hnp
+  · intro h
+    right; left; left; right
+    simp [h]
+
+/-- a plan line whose count has more than 4300 digits is reported and otherwise ignored -/
+theorem overlong_plan (s : PState) (line ds : List Char) (dir expl : Option (List Char))
+    (hv : swallowed s line = false) (hy : s.state ≠ .yaml)
+    (hc : classify (rstrip line) = .plan ds dir expl) (hp : s.plan = none) (hz : tooLong ds = true) :
+    (step s line).2 = [.error .planCountTooLarge] ∧ (step s line).1.plan = none := by
+  rw [step_visible hv]
+  simp [mainLine, hc, hy, onPlan, enter, hp, hz]
+
+/-- a version line (on line 1) whose number has more than 4300 digits is reported and otherwise ignored -/
+theorem overlong_version (s : PState) (line ds : List Char)
+    (hv : swallowed s line = false) (hy : s.state ≠ .yaml)
+    (hc : classify (rstrip line) = .version ds) (hl : s.lineno = 0) (hz : tooLong ds = true) :
+    (step s line).2 = [.error .versionTooLarge] ∧ (step s line).1.version = s.version := by
+  rw [step_visible hv]
+  simp [mainLine, hc, hy, onVersion, enter, hl, hz]
+
+theorem onTestE_ok (s : PState) (ok : Bool) (num : Option (List Char)) (name : List Char)
+    (dir expl : Option (List Char)) : onTestE s ok num name dir expl = .ok (onTest s ok num name dir expl) := by
+  unfold onTestE onTest testNumber numTooLong pyInt
+  cases num with
+  | none => rfl
+  | some d =>
+    cases h : tooLong d
+    · simp only [h]; rfl
+    · simp only [h]; rfl
+
+theorem onPlanE_ok (s : PState) (ds : List Char) (dir expl : Option (List Char)) :
+    onPlanE s ds dir expl = .ok (onPlan s ds dir expl) := by
+  unfold onPlanE onPlan pyInt
+  cases s.plan with
+  | some p => rfl
+  | none => cases h : tooLong ds <;> rfl
+
+theorem onVersionE_ok (s : PState) (ds : List Char) : onVersionE s ds = .ok (onVersion s ds) := by
+  unfold onVersionE onVersion pyInt
+  by_cases hl : s.lineno ≠ 1
+  · simp [hl]; rfl
+  · cases h : tooLong ds <;> simp [hl, h] <;> rfl
+
+theorem mainLineE_ok (s : PState) (line : List Char) : mainLineE s line = .ok (mainLine s line) := by
+  simp only [mainLineE, mainLine]
+  cases classify (rstrip line) with
+  | skip => rfl
+  | test ok num name dir expl => exact onTestE_ok ..
+  | plan ds dir expl => exact onPlanE_ok ..
+  | bailout msg => rfl
+  | version ds => exact onVersionE_ok ..
+  | unknown => rfl
+
+theorem stepE_ok (s : PState) (line : List Char) : stepE s line = .ok (step s line) := by
+  simp only [stepE, step, mainLineE_ok]
+  cases s.state with
+  | main => rfl
+  | afterTest =>
+    by_cases hv : s.version ≥ 13
+    · cases hy : yamlStart line <;> simp [hv, hy] <;> rfl
+    · simp [hv]
+  | yaml =>
+    cases he : yamlEnd line
+    · cases hi : startsWith line s.yamlIndent <;> simp [he, hi] <;> rfl
+    · simp [he]; rfl
+
+theorem runE_ok (s : PState) (lines : List (List Char)) : runE s lines = .ok (run s lines) := by
+  induction lines generalizing s with
+  | nil => rfl
+  | cons l ls ih => simp only [runE, run, stepE_ok, ih]; rfl
+
+/-- **no input makes the parser raise**: in the exception-faithful model — `int()` is partial (ValueError
+beyond 4300 digits) and the `try/except` blocks are where the source has them — no exception escapes
+`parse` for any line stream, and the result is the event list of the plain model -/
+theorem parse_never_raises (lines : List (List Char)) : parseE lines = .ok (parse lines) := by
+  simp only [parseE, parse, runE_ok]; rfl
 
 /-! ### Verdict -/
 
@@ -550,6 +661,10 @@ example : parse ["TAP version 13".toList, "ok".toList, " ---".toList, " a: b".to
 example : parse ["ok".toList, "TAP version 13".toList, "ok 3".toList] =
     [.test 1 [] .OK none, .error .versionNotFirst, .test 3 [] .OK none, .error (.missing 2 3)] := by decide
 
+example : tooLong (List.replicate 4301 '1') = true ∧ tooLong (List.replicate 4300 '0') = false := by
+  unfold tooLong intMaxStrDigits
+  rw [List.length_replicate, List.length_replicate]
+  constructor <;> decide
 example : swallowed { PState.init with state := .afterTest, version := 13 } "  ---".toList = true := by decide
 example : classify "ok 1 # SKIP:".toList = .test true (some ['1']) [] (some "SKIP".toList) (some [':']) := by decide
 example : classify "ok 1 # TODOS".toList = .test true (some ['1']) [] none none := by decide
